@@ -319,6 +319,32 @@ func c06Config(c *Ctx) {
 		}
 		c.Check("S", fnName(fn)+"/a destructed account's cached snapshot entries are dropped exactly when the object is marked deleted", n == 2, fn.Pos(), n, "")
 	}
+	cacheKeyRules(c)
+	if fn := c.Fn("kvm", "Contract", "isCode"); fn != nil {
+		n := 0
+		allInstrs(fn, false, func(_ *ssa.Function, in ssa.Instruction) {
+			switch x := in.(type) {
+			case *ssa.Lookup:
+				if pathOf(x.X) == "c.jumpdests" && pathOf(x.Index) == "c.CodeHash" {
+					n++
+				}
+			case *ssa.MapUpdate:
+				if pathOf(x.Map) == "c.jumpdests" && pathOf(x.Key) == "c.CodeHash" && pathOf(x.Value) == "call:kvm.codeBitmap(c.Code)" {
+					n++
+				}
+			}
+		})
+		c.Check("E", fnName(fn)+"/the shared jump-destination analysis is keyed by the code hash and computed from that code", n == 2, fn.Pos(), n, "")
+		c.Guarded(fn, "use the shared analysis", func(in ssa.Instruction) bool {
+			l, ok := in.(*ssa.Lookup)
+			return ok && pathOf(l.X) == "c.jumpdests"
+		}, G("the contract has a code hash", Cmp(`^c\.CodeHash$`, "!=", `.`), False(`^\(c\.CodeHash == `)))
+	}
+}
+
+// cacheKeyRules (shared by C06 and C08): the code and code-size caches of the state database are addressed by the code
+// hash; keyed by the account, a committed code size would be read back from an earlier incarnation of the account.
+func cacheKeyRules(c *Ctx) {
 	// ---- caches on the execution path are keyed by the content they hold ------------------------------------------------
 	nCache := 0
 	for _, f := range c.P.ModFuncs {
@@ -345,24 +371,4 @@ func c06Config(c *Ctx) {
 		})
 	}
 	c.Check("E", "kai/state.cachingDB/code cache accesses inventoried", nCache >= 6, c.fnPos("(*kai/state.cachingDB).ContractCodeSize"), nCache, "")
-	if fn := c.Fn("kvm", "Contract", "isCode"); fn != nil {
-		n := 0
-		allInstrs(fn, false, func(_ *ssa.Function, in ssa.Instruction) {
-			switch x := in.(type) {
-			case *ssa.Lookup:
-				if pathOf(x.X) == "c.jumpdests" && pathOf(x.Index) == "c.CodeHash" {
-					n++
-				}
-			case *ssa.MapUpdate:
-				if pathOf(x.Map) == "c.jumpdests" && pathOf(x.Key) == "c.CodeHash" && pathOf(x.Value) == "call:kvm.codeBitmap(c.Code)" {
-					n++
-				}
-			}
-		})
-		c.Check("E", fnName(fn)+"/the shared jump-destination analysis is keyed by the code hash and computed from that code", n == 2, fn.Pos(), n, "")
-		c.Guarded(fn, "use the shared analysis", func(in ssa.Instruction) bool {
-			l, ok := in.(*ssa.Lookup)
-			return ok && pathOf(l.X) == "c.jumpdests"
-		}, G("the contract has a code hash", Cmp(`^c\.CodeHash$`, "!=", `.`), False(`^\(c\.CodeHash == `)))
-	}
 }
